@@ -259,7 +259,7 @@ func c07handlers(c *Ctx, l *lab.Lab) {
 	groups := corpus.PlacementGroups()
 	for _, g := range groups {
 		for _, where := range []string{"path", "query"} {
-			if where == "path" && !g.WithPath {
+			if where == "path" && !g.WithPath && !g.JSONNames {
 				continue
 			}
 			pkg := fmt.Sprintf("c07.h%s%s", g.Label, where)
